@@ -1176,9 +1176,16 @@ pub fn compute(file: &File, r: &Rendered) -> Out {
                     match args.last().map(|a| &a.e) {
                         Some(E::Str(parts)) => {
                             let lit_tok = r.loc_tok_of(args.last().unwrap().id).unwrap_or(usize::MAX);
-                            let clean = parts.len() == 1 && !parts[0].contains('\\');
-                            let content_len = if parts[0].starts_with("unicode") { parts[0].len().saturating_sub(9) } else { parts[0].len().saturating_sub(2) };
-                            req.push((vec![lit_tok, call_tok], content_len, clean, format!("len{}", content_len.min(40))));
+                            let plen = |p: &String| if p.starts_with("unicode") { p.len().saturating_sub(9) } else { p.len().saturating_sub(2) };
+                            let first_len = plen(&parts[0]);
+                            let total_len: usize = parts.iter().map(plen).sum();
+                            let no_escapes = parts.iter().all(|p| !p.contains('\\'));
+                            // several adjacent literals: decided only where measuring the first part and measuring the whole message agree
+                            let agree = parts.len() == 1 || (first_len >= 32) == (total_len >= 32);
+                            let clean = no_escapes && agree;
+                            let content_len = first_len;
+                            let form = if parts.len() == 1 { format!("len{}", content_len.min(40)) } else { format!("multi-part:first{}:total{}", first_len.min(40), total_len.min(80)) };
+                            req.push((vec![lit_tok, call_tok], content_len, clean, form));
                         }
                         _ => req_not.push(call_tok),
                     }
